@@ -1,0 +1,42 @@
+// Verification contracts (comment-only, compiled only with the "verif" build tag; read by /verif/govc).
+
+//go:build verif
+// +build verif
+
+package core
+
+// Property C05 — "Only real equivocation is slashable, and it is slashed exactly once": core side.
+//
+// "Evidence of two different same-kind votes by one validator in one round/index is accepted by block builder and block validator alike":
+// the evidence names its signer by the INDEX the voter had in the validator list its vote kind is drawn from. The staking module must resolve
+// that index in the same list, or the index lands on another validator, the BLS check fails and a real equivocation is dropped. The lists
+// (consensus side, pinned by C01 c01Dist / C03 c03VldLookBack in consensus/ucon/verif_contracts_c01.go / _c03.go): for a vote of round r the
+// list of block max(0, r - d), with d = StakeLookBack of the protocol version in force for ordinary votes (LookBackStake) and
+// d = 2*ACoCHTFrequency for certificate votes (LookBackCertStake: consensus/ucon/sortition_verifier.go:246-247, GetLookBackBlockNumber,
+// `cfg = big.NewInt(int64(params.ACoCHTFrequency) * 2)`; C01 writes it `2 * params.ACoCHTFrequency`).
+
+// Distance of the look-back block, by vote kind (stakeLB: the StakeLookBack of the version in force for the round).
+//@ spec func c05LookBackDist(isCert: bool, stakeLB: int) int = if isCert then 2 * params.ACoCHTFrequency else stakeLB
+// The look-back block of round r at distance d (block 0 while r is not larger than the distance).
+//@ spec func c05LookBackBlock(r: int, d: int) int = if r > d then r - d else 0
+
+// Chain index, version table, reader factory: ASSUMED read-only (header chain / database / trie cache are outside C05).
+//@ func (*HeaderChain).VersionForRound props C05
+//@ nobody
+//@ pure
+//@ ensures result1 == nil ==> result0 != nil
+//@ func (*BlockChain).GetHeaderByNumber props C05
+//@ nobody
+//@ pure
+//@ func (*BlockChain).GetVldReader props C05
+//@ nobody
+//@ pure
+
+// The reader handed out for (round, vote kind) is the one opened for the validator root recorded in the header of the look-back block of that
+// kind; the protocol version consulted is the one in force for that round. Typestate asserts at the three look-ups (no ghost state: the
+// function has no other way to obtain a header or a reader).
+//@ func (*BlockChain).LookBackVldReaderForRound props C05
+//@ modifies nothing
+//@ assert before call (*HeaderChain).VersionForRound: [version-in-force-for-the-round] a1 == r
+//@ assert before call (*BlockChain).GetHeaderByNumber: [header-of-the-look-back-block] a1 == c05LookBackBlock(r, c05LookBackDist(isCert, yp.StakeLookBack))
+//@ assert before call (*BlockChain).GetVldReader: [reader-of-that-headers-validator-root] lookBackHeader != nil && a1 == lookBackHeader.ValRoot
